@@ -21,6 +21,7 @@ func TestC09_Replay(t *testing.T) {
 		}
 		_ = json.Unmarshal(raw, &kind)
 		var rerr error
+		got := ""
 		switch kind.Kind {
 		case "ring":
 			var c n09RCase
@@ -34,7 +35,8 @@ func TestC09_Replay(t *testing.T) {
 				t.Fatalf("replay %s: %v", f, err)
 			}
 			// real sockets and goroutines: inputs replay, schedules do not - try a few times
-			tries := vEnvInt("VERIF_REPLAY_TRIES", 5)
+			tries := vEnvInt("VERIF_REPLAY_TRIES", 25)
+			n09ReplayMode = true
 			for i := 0; i < tries && rerr == nil; i++ {
 				out := n09RunCluster(&c)
 				if out.inconclusive != "" {
@@ -42,11 +44,13 @@ func TestC09_Replay(t *testing.T) {
 					continue
 				}
 				rerr = out.err
+				got = " observed-key=" + out.key
 			}
+			n09ReplayMode = false
 		default:
 			t.Fatalf("replay %s: unknown kind %q", f, kind.Kind)
 		}
-		fmt.Printf("VERIF-KF key=%s reproduced=%v file=%s %v\n", key, rerr != nil, f, rerr)
+		fmt.Printf("VERIF-KF key=%s reproduced=%v file=%s%s %v\n", key, rerr != nil, f, got, rerr)
 	}
 	_ = os.Stdout.Sync()
 }
